@@ -823,7 +823,7 @@ class BlobStorage(BlobStorageMixin):
             if not os.listdir(oid_path):
                 shutil.rmtree(oid_path)
 
-    def pack(self, packtime, referencesf):
+    def pack(self, packtime, referencesf, gc=None):
         """Remove all unused OID/TID combinations."""
         with self._lock:
             if self._blobs_pack_is_in_progress:
@@ -834,7 +834,11 @@ class BlobStorage(BlobStorageMixin):
             # Pack the underlying storage, which will allow us to determine
             # which serials are current.
             unproxied = self.__storage
-            result = unproxied.pack(packtime, referencesf)
+            if gc is None:
+                result = unproxied.pack(packtime, referencesf)
+            else:
+                # e.g. DemoStorage packing its temporary changes
+                result = unproxied.pack(packtime, referencesf, gc=gc)
 
             # Perform a pack on the blob data.
             if self.__supportsUndo:
